@@ -337,6 +337,7 @@ pub struct PipeRun {
     pub tasks: u32,
     pub trace_digest: u64,
     pub choices: Vec<u16>,
+    pub max_gap: u64,
 }
 
 struct Prepared {
@@ -447,6 +448,7 @@ pub fn execute_batch(specs: &[PipeSpec]) -> Vec<(Workload, PipeRun)> {
                 preemptions: res.trace.preemptions,
                 tasks: res.trace.max_tasks,
                 trace_digest: res.trace.digest(),
+                max_gap: res.trace.max_gap,
                 choices: res.trace.choices,
             };
             (w, run)
